@@ -7,7 +7,10 @@
 #include "hx_entity.h"
 #include "utilities.h"
 #include "commonutils.h"
+#include <algorithm>
 #include <functional>
+#include <regex>
+#include <set>
 using namespace libcellml;
 
 struct Slot {
@@ -294,6 +297,39 @@ static std::string run(const hx::Sexp &e)
         else if (h == "clearall") annotator->clearAllIds();
         else if (h == "item") { long k = slotOfItem(annotator->item(op[1].text())); res = k >= 0 ? "i" + std::to_string(k) : (k == -1 ? "none" : "unknown-object"); }
         else if (h == "count") res = "n" + std::to_string(annotator->itemCount(op[1].text()));
+        else if (h == "printauto") {
+            // Printer::printModel(model, true): (p <model unchanged> <elements left without id> <elements without id in the plain print> <generated ids, sorted>)
+            auto printer = Printer::create();
+            std::string before = idsDump();
+            std::string plain = printer->printModel(model, false);
+            std::string autoText = printer->printModel(model, true);
+            bool unchanged = idsDump() == before && printer->printModel(model, false) == plain;
+            auto idsIn = [](std::string t, size_t &without) {
+                std::multiset<std::string> ids;
+                without = 0;
+                t = std::regex_replace(t, std::regex("<math[\\s\\S]*?</math>"), "");
+                static const std::regex tag("<(model|import|units|unit|component|variable|reset|test_value|reset_value|connection|map_variables|encapsulation|component_ref)\\b([^>]*)>");
+                for (auto it = std::sregex_iterator(t.begin(), t.end(), tag); it != std::sregex_iterator(); ++it) {
+                    std::string attrs = (*it)[2].str();
+                    std::smatch m;
+                    if (std::regex_search(attrs, m, std::regex("(^|\\s)id=\"([^\"]*)\""))) ids.insert(m[2].str());
+                    else ++without;
+                }
+                return ids;
+            };
+            size_t k = 0, missing = 0;
+            auto plainIds = idsIn(plain, k);
+            auto autoIds = idsIn(autoText, missing);
+            std::vector<std::string> gen;
+            for (auto &i : autoIds) {
+                auto it = plainIds.find(i);
+                if (it != plainIds.end()) plainIds.erase(it); else gen.push_back(i);
+            }
+            std::sort(gen.begin(), gen.end(), [](const std::string &a, const std::string &b) { return a.size() != b.size() ? a.size() < b.size() : a < b; });
+            res = "(p " + std::string(unchanged ? "1" : "0") + " " + std::to_string(missing + plainIds.size()) + " " + std::to_string(k);
+            for (auto &g : gen) res += " " + hx::H(g);
+            res += ")";
+        }
         else if (h == "ids") res = listOf(annotator->ids());
         else if (h == "dups") res = listOf(annotator->duplicateIds());
         else return "bad-op";
